@@ -160,7 +160,8 @@ def build_cells(seed: int, doc: dict, hashseeds: list[int], with_hooks: bool, ot
     hashseeds = list(dict.fromkeys(hashseeds))
 
     def skew() -> dict:
-        return {"tz": r.choice(TZS), "umask": r.choice([0o022, 0o077, 0o002]), "cwd": r.choice(["w", "deep/er/dir", "x y"])}
+        # (mtime_days: the document FILE's modification time differs from cell to cell - by days, not milliseconds)
+        return {"tz": r.choice(TZS), "umask": r.choice([0o022, 0o077, 0o002]), "cwd": r.choice(["w", "deep/er/dir", "x y"]), "mtime_days": r.randrange(0, 800)}
 
     base = {"id": "base", "kind": "base", "h": hashseeds[0], "tz": "UTC", "umask": 0o022, "cwd": "w", "history": [], "hooks": "off", "perm": None}
     cells.append(base)
@@ -235,6 +236,9 @@ def gen_cell(args: dict, sandbox: str) -> dict:
         dp = os.path.join(sandbox, f"doc{n}.json")
         with open(dp, "w") as f:
             json.dump(d, f)
+        if cell.get("mtime_days") is not None:
+            t = 1_600_000_000 + 86_400 * int(cell["mtime_days"]) + 3_600 * n
+            os.utime(dp, (t, t))
         out = os.path.join(sandbox, "out_same" if cell.get("same_dir") else f"out{n}")
         # earlier generations of a warm cell are only HISTORY of the process (possibly under another configuration)
         argv = ["generate", "--path", dp, "--config", cfgpath if last else hist_cfgpath, "--meta", meta, "--output-path", out]
@@ -276,6 +280,13 @@ def file_class(rel: str) -> str:
 
 def compare(a: dict, b: dict) -> tuple[str, str] | None:
     """First difference between two cells' trees: (file class, description)."""
+    ea, eb = a.get("exception"), b.get("exception")
+    if ea or eb:
+        # a generation that dies in one process configuration (locale, hash seed, history ...) and not in the other - or
+        # dies differently - depends on process-level state; two identical crashes are C06's subject, not C12's
+        if str(ea).split(":")[0] == str(eb).split(":")[0]:
+            return None
+        return "exception", f"first cell: {str(ea)[:160]!r}; second cell: {str(eb)[:160]!r}"
     fa, fb = a["files"], b["files"]
     if fa == fb:
         return None
@@ -339,6 +350,11 @@ def judge(doc_seed: int, doc: dict, cells: list[dict], results: dict[str, dict],
                 probes["perm-skipped(diagnostics)"] = probes.get("perm-skipped(diagnostics)", 0) + 1
                 continue
             ref = next((x for x in cells if x["kind"] in ("base", "cold") and x["h"] == c["h"]), by_id["base"])
+            if r_.get("exception") or results[ref["id"]].get("exception"):
+                cmp = compare(results[ref["id"]], r_)
+                if cmp:
+                    add("order-dependence", ref, c, cmp)
+                continue
             if r_["n_diag"] != 0:
                 violations.append({"kind": "order-dependence", "locus": "diagnostics", "detail": f"permutation {c['perm']['label']} produces diagnostics {r_['diag_heads']} while the original order produces none"})
                 specs["order-dependence|diagnostics"] = {"hashseed": 0, "docs": docs, "meta": meta, "config": config, "cells": [ref, c], "doc_seed": doc_seed}
@@ -478,7 +494,8 @@ def pair_violation(spec: dict, a: dict, b: dict) -> list[dict]:
     cells = spec["cells"]
     kind = KIND_OF.get(cells[1]["kind"], "process-nondeterminism")
     if a.get("exception") or b.get("exception"):
-        return []
+        cmp = compare(a, b)
+        return [{"kind": kind, "locus": cmp[0], "detail": f"cells {cells[0]['id']}(h={cells[0]['h']}) vs {cells[1]['id']}(h={cells[1]['h']}): {cmp[1]}"}] if cmp else []
     if kind == "order-dependence" and a["n_diag"] != 0:
         return []
     if kind == "order-dependence" and b["n_diag"] != 0:
